@@ -60,22 +60,30 @@ func (this *Allocator) Stop() {
 
 func (this *Allocator) watch(partition *partition) {
 	this.partitionsMu.Lock()
-	defer this.partitionsMu.Unlock()
-
-	if _, exists := this.partitions[partition.id]; !exists {
+	_, exists := this.partitions[partition.id]
+	if !exists {
 		this.partitions[partition.id] = partition
-		verifPoint("allocator.watch.locked", partition.id)
+	}
+	verifPoint("allocator.watch.locked", partition.id)
+	this.partitionsMu.Unlock()
+
+	// Send without holding partitionsMu: the only receiver is the allocator
+	// loop, which takes that lock itself when it handles node changes.
+	if !exists {
 		this.updatesC <- &watchPartitionUpdate{partition}
 	}
 }
 
 func (this *Allocator) unwatch(id uuid.UUID) {
 	this.partitionsMu.Lock()
-	defer this.partitionsMu.Unlock()
-
-	if partition, exists := this.partitions[id]; exists {
+	partition, exists := this.partitions[id]
+	if exists {
 		delete(this.partitions, id)
-		verifPoint("allocator.unwatch.locked", id)
+	}
+	verifPoint("allocator.unwatch.locked", id)
+	this.partitionsMu.Unlock()
+
+	if exists {
 		this.updatesC <- &unwatchPartitionUpdate{partition}
 	}
 }
